@@ -2,8 +2,10 @@ package rules
 
 import (
 	"fmt"
+	"go/constant"
 	"go/token"
 	"go/types"
+	"regexp"
 	"sort"
 	"strings"
 
@@ -11,6 +13,7 @@ import (
 
 	"semaverif/internal/core"
 	"semaverif/internal/load"
+	"semaverif/internal/lockset"
 	"semaverif/internal/ssax"
 )
 
@@ -1898,5 +1901,371 @@ func TxLeak(w *load.World, c *core.Collector) {
 	c.Count("hand_opened_transactions", n)
 	emitLint(c, "TXLEAK", "transaction-left-open", seen, per, func(p string) []string {
 		return []string{"C12", "C08"}
+	})
+}
+
+// =========================================================================
+// Lints added after the fifth blind round.
+
+// scratchTypes: standard and vendored types that keep per-use state and are documented as not
+// safe for concurrent use. One instance per use is the only correct sharing discipline unless a
+// lock serialises the uses.
+var scratchTypes = []string{
+	"msgpack/v5.Decoder", "msgpack/v5.Encoder", "bytes.Buffer", "bytes.Reader", "strings.Builder", "strings.Reader",
+	"bufio.Reader", "bufio.Writer", "bufio.Scanner", "encoding/json.Decoder", "encoding/json.Encoder",
+	"encoding/gob.Decoder", "encoding/gob.Encoder", "math/rand.Rand", "math/rand/v2.Rand",
+	"hash.Hash", "hash.Hash32", "hash.Hash64", "xxhash.Digest", "hash/maphash.Hash", "text/tabwriter.Writer",
+}
+
+func isScratchType(t types.Type) bool {
+	for {
+		if p, ok := t.(*types.Pointer); ok {
+			t = p.Elem()
+			continue
+		}
+		break
+	}
+	s := t.String()
+	for _, n := range scratchTypes {
+		if s == n || strings.HasSuffix(s, "/"+n) {
+			return true
+		}
+	}
+	return false
+}
+
+// SHAREDSCRATCH: an object that keeps per-use state (a decoder, an encoder, a buffer, a hash, a
+// random source) lives in a field of a long-lived server object, or in a package variable, and is
+// used by a method that holds no lock of that object. Requests run one goroutine each: two that
+// overlap reset and read the same buffers, and one decodes the other's bytes.
+func SharedScratch(w *load.World, ls *lockset.Result, c *core.Collector) {
+	per := map[string][]lintHit{}
+	seen := map[string]bool{}
+	for _, f := range w.Fns {
+		if !load.InMod(f) || f.Synthetic != "" {
+			continue
+		}
+		pkg := load.PkgPath(f)
+		// per-connection codecs are driven by one reader goroutine and a writer under the rpc
+		// package's own sending mutex; generators and tools are single-threaded
+		if strings.HasSuffix(pkg, "/cluster/mrpc") || strings.Contains(pkg, "/internal/") {
+			continue
+		}
+		seen[pkg] = true
+		if f.Name() == "init" || strings.HasPrefix(f.Name(), "init#") {
+			continue
+		}
+		for _, b := range f.Blocks {
+			for _, in := range b.Instrs {
+				ci, ok := in.(ssa.CallInstruction)
+				if !ok {
+					continue
+				}
+				cc := ci.Common()
+				var recv ssa.Value
+				if cc.IsInvoke() {
+					recv = cc.Value
+				} else if g := cc.StaticCallee(); g != nil && g.Signature.Recv() != nil && len(cc.Args) > 0 && !ssax.InModule(g) {
+					recv = cc.Args[0]
+				}
+				if recv == nil || !isScratchType(recv.Type()) {
+					continue
+				}
+				// where does the object live
+				ld, ok := recv.(*ssa.UnOp)
+				var holder string
+				var addr ssa.Value
+				if ok && ld.Op == token.MUL {
+					addr = ld.X
+				} else if fa, ok := recv.(*ssa.FieldAddr); ok {
+					addr = fa // a value-typed field used through its address
+				} else if g, ok := recv.(*ssa.Global); ok {
+					addr = g
+				}
+				switch a := addr.(type) {
+				case *ssa.FieldAddr:
+					if _, fresh := ssax.Path(a.X); fresh {
+						continue
+					}
+					tn := ssax.TypeName(a.X.Type())
+					guarded := false
+					for cls := range ls.HeldAt(in) {
+						if strings.HasPrefix(cls, tn+".") {
+							guarded = true
+						}
+					}
+					if guarded {
+						continue
+					}
+					// a field of an object the function itself received by value is a copy
+					holder = "field " + tn + "." + ssax.StructOf(a.X.Type()).Field(a.Field).Name()
+				case *ssa.Global:
+					if !ssax.InModule(f) || a.Pkg == nil || !strings.HasPrefix(a.Pkg.Pkg.Path(), load.Mod) {
+						continue
+					}
+					if len(ls.HeldAt(in)) > 0 {
+						continue
+					}
+					holder = "package variable " + a.Name()
+				default:
+					continue
+				}
+				per[pkg] = append(per[pkg], lintHit{w.At(in), "a " + strings.TrimPrefix(recv.Type().String(), "*") + " kept in " + holder + " is used with no lock held: it keeps per-use state, and two requests that overlap reset and read each other's buffers"})
+			}
+		}
+	}
+	emitLint(c, "SHAREDSCRATCH", "unlocked-use", seen, per, func(p string) []string {
+		if strings.HasSuffix(p, "/shard") || strings.Contains(p, "/shard/") {
+			return []string{"C09"}
+		}
+		return nil
+	})
+}
+
+// POOLDIRTY: an object taken from a sync.Pool is filled and given back in the same function, and
+// on some path it goes back without having been emptied (an early return past the clear, with the
+// Put deferred). The next Get starts from the leftovers: a set of "ids seen in this batch" that
+// still holds ids of a rejected batch rejects a later, valid one.
+func PoolDirty(w *load.World, c *core.Collector) {
+	per := map[string][]lintHit{}
+	seen := map[string]bool{}
+	for _, f := range w.Fns {
+		if !load.InMod(f) || f.Synthetic != "" {
+			continue
+		}
+		pkg := load.PkgPath(f)
+		seen[pkg] = true
+		// objects obtained from Get
+		var objs []ssa.Value
+		for _, b := range f.Blocks {
+			for _, in := range b.Instrs {
+				if ta, ok := in.(*ssa.TypeAssert); ok {
+					if call, ok := ta.X.(*ssa.Call); ok && staticName(call) == "(*sync.Pool).Get" {
+						objs = append(objs, ta)
+					}
+				}
+			}
+		}
+		for _, obj := range objs {
+			is := func(v ssa.Value) bool {
+				for i := 0; i < 4 && v != nil; i++ {
+					if v == obj {
+						return true
+					}
+					switch x := v.(type) {
+					case *ssa.MakeInterface:
+						v = x.X
+					case *ssa.ChangeType:
+						v = x.X
+					case *ssa.Extract:
+						v = x.Tuple
+					default:
+						return false
+					}
+				}
+				return false
+			}
+			var muts, resets, sinks []ssa.Instruction
+			deferred := false
+			for _, b := range f.Blocks {
+				for _, in := range b.Instrs {
+					switch x := in.(type) {
+					case *ssa.MapUpdate:
+						if is(x.Map) {
+							muts = append(muts, in)
+						}
+					case *ssa.Store:
+						if ia, ok := x.Addr.(*ssa.IndexAddr); ok && is(ia.X) {
+							muts = append(muts, in)
+						}
+						if fa, ok := x.Addr.(*ssa.FieldAddr); ok && is(fa.X) {
+							muts = append(muts, in)
+						}
+					case ssa.CallInstruction:
+						cc := x.Common()
+						if bi, ok := cc.Value.(*ssa.Builtin); ok {
+							if bi.Name() == "clear" && len(cc.Args) == 1 && is(cc.Args[0]) {
+								resets = append(resets, in)
+							}
+							continue
+						}
+						name := staticName(x)
+						if name == "(*sync.Pool).Put" && len(cc.Args) == 2 && is(cc.Args[1]) {
+							if _, isDefer := in.(*ssa.Defer); isDefer {
+								deferred = true
+							} else {
+								sinks = append(sinks, in)
+							}
+							continue
+						}
+						if g := cc.StaticCallee(); g != nil && g.Signature.Recv() != nil && len(cc.Args) > 0 && is(cc.Args[0]) {
+							switch {
+							case strings.HasPrefix(g.Name(), "Reset"), strings.HasPrefix(g.Name(), "Clear"), g.Name() == "Truncate":
+								resets = append(resets, in)
+							default:
+								for _, m := range mutatorNames {
+									if strings.HasPrefix(g.Name(), m) {
+										muts = append(muts, in)
+										break
+									}
+								}
+							}
+						}
+					}
+				}
+			}
+			if deferred {
+				for _, b := range f.Blocks {
+					if r, ok := b.Instrs[len(b.Instrs)-1].(*ssa.Return); ok {
+						sinks = append(sinks, r)
+					}
+				}
+			}
+			if len(sinks) == 0 || len(muts) == 0 {
+				continue
+			}
+			// emptied on the way out of Get, before any use: leftovers do not matter
+			objIn := obj.(ssa.Instruction)
+			emptiedAtGet := false
+			for _, r := range resets {
+				if r.Block() == objIn.Block() || r.Block().Dominates(muts[0].Block()) {
+					first := true
+					for _, m := range muts {
+						if !instrBefore(r, m) && !properlyDominates(r, m) {
+							first = false
+						}
+					}
+					if first {
+						emptiedAtGet = true
+					}
+				}
+			}
+			if emptiedAtGet {
+				continue
+			}
+			blocked := map[ssa.Instruction]bool{}
+			for _, r := range resets {
+				blocked[r] = true
+			}
+			target := map[ssa.Instruction]bool{}
+			for _, s := range sinks {
+				target[s] = true
+			}
+			for _, m := range muts {
+				if hit := reachesInstrWithout(m, target, blocked); hit != nil {
+					per[pkg] = append(per[pkg], lintHit{w.At(m), "the pooled object is filled here and can go back to the pool at " + w.At(hit) + " without having been emptied: the next Get starts from what this call left in it"})
+					break
+				}
+			}
+		}
+	}
+	emitLint(c, "POOLDIRTY", "returned-dirty", seen, per, nil)
+}
+
+func instrIndex(in ssa.Instruction) int {
+	for i, x := range in.Block().Instrs {
+		if x == in {
+			return i
+		}
+	}
+	return -1
+}
+
+// instrBefore: same block, a before b
+func instrBefore(a, b ssa.Instruction) bool {
+	return a.Block() == b.Block() && instrIndex(a) < instrIndex(b)
+}
+
+func properlyDominates(a, b ssa.Instruction) bool {
+	return a.Block() != b.Block() && a.Block().Dominates(b.Block())
+}
+
+// reachesInstrWithout: the first target instruction reachable from just after `from` on a path
+// that executes none of the blocked instructions
+func reachesInstrWithout(from ssa.Instruction, target, blocked map[ssa.Instruction]bool) ssa.Instruction {
+	scan := func(b *ssa.BasicBlock, start int) (hit ssa.Instruction, stop bool) {
+		for _, in := range b.Instrs[start:] {
+			if blocked[in] {
+				return nil, true
+			}
+			if target[in] {
+				return in, true
+			}
+		}
+		return nil, false
+	}
+	if hit, stop := scan(from.Block(), instrIndex(from)+1); stop {
+		return hit
+	}
+	seenB := map[*ssa.BasicBlock]bool{}
+	work := append([]*ssa.BasicBlock{}, from.Block().Succs...)
+	for len(work) > 0 {
+		b := work[0]
+		work = work[1:]
+		if seenB[b] {
+			continue
+		}
+		seenB[b] = true
+		hit, stop := scan(b, 0)
+		if hit != nil {
+			return hit
+		}
+		if !stop {
+			work = append(work, b.Succs...)
+		}
+	}
+	return nil
+}
+
+var fullFileName = regexp.MustCompile(`^[A-Za-z0-9_-]+\.[A-Za-z0-9]{2,8}$`)
+
+// LOOSENAME: a file is recognised as "the" file of a given name by a substring, prefix or suffix
+// test against the complete file name. "sharddb.bbolt.bak" and "old-sharddb.bbolt" are then shard
+// databases too, and whatever is done to shard databases (send, then delete) is done to them.
+func LooseName(w *load.World, c *core.Collector) {
+	per := map[string][]lintHit{}
+	seen := map[string]bool{}
+	for _, f := range w.Fns {
+		if !load.InMod(f) || f.Synthetic != "" {
+			continue
+		}
+		pkg := load.PkgPath(f)
+		seen[pkg] = true
+		for _, b := range f.Blocks {
+			for _, in := range b.Instrs {
+				call, ok := in.(*ssa.Call)
+				if !ok || len(call.Call.Args) != 2 {
+					continue
+				}
+				n := staticName(call)
+				if n != "strings.Contains" && n != "strings.HasSuffix" && n != "strings.HasPrefix" {
+					continue
+				}
+				k, ok := call.Call.Args[1].(*ssa.Const)
+				if !ok || k.Value == nil || k.Value.Kind() != constant.String || !fullFileName.MatchString(constant.StringVal(k.Value)) {
+					continue
+				}
+				if n != "strings.Contains" {
+					// a suffix test on a whole path is the usual way to ask for the last element; on a
+					// base name it is a loose match
+					src, ok := call.Call.Args[0].(*ssa.Call)
+					if !ok {
+						continue
+					}
+					sn := staticName(src)
+					isName := sn == "path/filepath.Base" || sn == "path.Base" || (src.Call.IsInvoke() && src.Call.Method.Name() == "Name")
+					if !isName {
+						continue
+					}
+				}
+				per[pkg] = append(per[pkg], lintHit{w.At(in), fmt.Sprintf("a file counts as %q when its name merely contains, starts or ends with that: %q and %q count too", constant.StringVal(k.Value), constant.StringVal(k.Value)+".bak", "old-"+constant.StringVal(k.Value))})
+			}
+		}
+	}
+	emitLint(c, "LOOSENAME", "file-name-match", seen, per, func(p string) []string {
+		if strings.HasSuffix(p, "/cluster") {
+			return []string{"C14"}
+		}
+		return nil
 	})
 }
